@@ -30,7 +30,9 @@ THEOREMS = ["fold_pass_sem", "fold_sem", "fold_fixpoint_normal", "fold_normal_pa
             "trie_match_complete_exact", "trie_eq_rules_partial", "trie_trailing_any_refuted", "trie_decision_eq_rules_partial",
             "trie_decision_order_independent_partial", "namespace_spec"]
 REFUTED = ["match1_empty_refuted", "access_request_parsed_refuted", "trie_trailing_any_refuted"]
-RULE = ("expressions and subjects over code points {a b c A B e-acute E-acute % _ \\ and the empty string}; subjects derived from expressions by "
+RULE = ("[trie families: rules on one database/branch/user whose hosts are proper prefixes / extensions of one another — a rule with two "
+        "children, with one child, chains of depth 3, forks below a non-rule node — inserted in random order, leaves and inner rules deleted in "
+        "random order, every surviving and deleted rule probed, also through dolt_branch_control] expressions and subjects over code points {a b c A B e-acute E-acute % _ \\ and the empty string}; subjects derived from expressions by "
         "instantiating wildcards, changing case / accents, or mutating one character; rule tables of 1-6 rules with respelled ('%%' vs '%', case) "
         "keys, deletes and re-inserts in random order, requests derived from the rules; collations ai_ci and bin; non-trivial = at least one "
         "wildcard, escape or rule; distinct by content")
@@ -42,7 +44,9 @@ ASSUMPTIONS = ["strings are valid UTF-8 and shorter than 65535 bytes (the uint16
                "existing rule with the same permissions)"]
 REQUIRED_TAGS = ["fold-changed", "fold-escape", "fold-multipass", "m1-match", "m1-nomatch", "m1-bin", "m1-casefold", "m1-accent", "m1-escape",
                  "m1-empty-subject", "m1-empty-pattern", "acc-found", "acc-notfound", "acc-tie-union", "acc-longest-wins", "acc-delete",
-                 "acc-reinsert", "acc-respelled-key", "acc-sql", "acc-special-in-request", "ns-allowed", "ns-denied", "ns-unrestricted", "ns-delete"]
+                 "acc-reinsert", "acc-respelled-key", "acc-sql", "acc-special-in-request",
+                 "trie-parent-rule-two-children-delete-leaf", "trie-parent-rule-one-child-delete-leaf", "trie-delete-inner-rule",
+                 "trie-inner-rule-absorbs-only-child", "trie-absorb-last-child", "trie-chain-depth3", "trie-probe-deleted-rule", "trie-family-sql", "ns-allowed", "ns-denied", "ns-unrestricted", "ns-delete"]
 KNOWN_KEY_REQ = "access-match:request-strings-parsed-as-expressions"
 KNOWN_KEY_EMPTY = "match:empty-subject-processed-as-U+FFFD"
 KNOWN_KEY_TRAIL = "access-match:trailing-any-starting-a-child-node-not-reported"
@@ -382,6 +386,64 @@ def gen_table(rng, kind, sql):
     return c
 
 
+PREFIXES = ["10.0.0.", "h", "local", "ab", "10.0.0.1", ""]
+EXT = ["1", "0", "a", "b", "x", "2"]
+
+
+def gen_trie_family(rng, sql):
+    """Rules whose four-column concatenations are proper prefixes / extensions of one another (they differ in the host, the
+    last column): a rule with exactly two children, with one child, chains of depth 3, branching below a non-rule node.
+    Inserted in random order; leaves and inner rules deleted in random order; every surviving and every deleted rule probed."""
+    d, b, u = rng.choice(["db", "d%"]), rng.choice(["main", "m%", "ma_n"]), rng.choice(["u", "root", "%"])
+    base = rng.choice(PREFIXES)
+    x, y, z = rng.sample(EXT, 3)
+    shape = rng.choice(["two", "two", "two", "one", "chain3", "chain3", "fork", "two+chain", "two+deep"])
+    if shape == "two":
+        hosts = [base + x, base + x + y, base + x + z]
+    elif shape == "one":
+        hosts = [base + x, base + x + y]
+    elif shape == "chain3":
+        hosts = [base + x, base + x + y, base + x + y + z]
+    elif shape == "fork":
+        hosts = [base + x + y, base + x + z] + ([base + y] if rng.random() < 0.5 else [])
+    elif shape == "two+chain":
+        hosts = [base + x, base + x + y, base + x + z, base + x + y + z]
+    else:
+        hosts = [base + x, base + x + y + x, base + x + y + z, base + x + z]
+    hosts = [h for h in hosts if h != ""] or ["h"]
+    if rng.random() < 0.3:
+        hosts.append(rng.choice(["other", "zz", base + "q"]))
+    hosts = list(dict.fromkeys(hosts))
+    perms = {h: rng.choice([1, 2, 4, 8]) for h in hosts}
+    order = list(hosts)
+    rng.shuffle(order)
+    ops = [R(d, b, u, h, perms[h]) for h in order]
+    live = list(hosts)
+    dels = []
+    for _ in range(rng.choice([1, 1, 2, 2, 3])):
+        if not live:
+            break
+        k = rng.random()
+        leaves = [h for h in live if not any(o != h and o.startswith(h) for o in live)]
+        inner = [h for h in live if h not in leaves]
+        h = rng.choice(leaves) if (k < 0.6 or not inner) else rng.choice(inner)
+        live.remove(h)
+        dels.append(h)
+        ops.append(R(d, b, u, h, perms[h], ins=False))
+        if rng.random() < 0.15:
+            perms[h] = rng.choice([1, 2, 4, 8])
+            ops.append(R(d, b, u, h, perms[h]))
+            live.append(h)
+    qd, qb, qu = "db", "main", ("u" if u != "root" else "root")
+    reqs = [Q(qd, qb, qu, h) for h in hosts]
+    if rng.random() < 0.5:
+        reqs.append(Q(qd, qb, qu, hosts[0] + "9"))
+    c = {"k": "acc", "ops": ops, "reqs": reqs, "fam": shape}
+    if sql:
+        c["sql"] = True
+    return c
+
+
 def R(d, b, u, h, perm=2, ins=True):
     return {"ins": ins, "d": cp(d), "b": cp(b), "u": cp(u), "h": cp(h), "perm": perm}
 
@@ -422,6 +484,9 @@ def gen_cases(rng, tier):
     cases += [gen_fold(rng) for _ in range(nf)]
     cases += [gen_m1(rng) for _ in range(nm)]
     cases += [gen_table(rng, "acc", False) for _ in range(na)]
+    ntf, ntfs = (150, 12) if tier == "quick" else (3000, 150)
+    cases += [gen_trie_family(rng, False) for _ in range(ntf)]
+    cases += [gen_trie_family(rng, True) for _ in range(ntfs)]
     cases += [gen_table(rng, "acc", True) for _ in range(nas)]
     cases += [gen_table(rng, "ns", True) for _ in range(nn)]
     return cases
@@ -512,6 +577,62 @@ def _ns_diffs(case, o):
     return cur, diffs
 
 
+def _trie_tags(tab, ops, reqs):
+    """shape of the (compressed) trie at each delete, computed on the concatenated token strings of the live rules"""
+    def cat(k):
+        a, b, c, d = tok_key(tab, k)
+        return (-3,) + a + (-3,) + b + (-3,) + c + (-3,) + d
+    tags = set()
+    live = {}
+    deleted = set()
+    for op in ops:
+        key = norm_key(tab, op)
+        path = cat(key)
+        if op["ins"]:
+            live[path] = key
+            deleted.discard(path)
+            chain = [p for p in live if path[:len(p)] == p or p[:len(path)] == path]
+            depth = sorted(chain, key=len)
+            if len(depth) >= 3 and all(depth[i + 1][:len(depth[i])] == depth[i] for i in range(len(depth) - 1)):
+                tags.add("trie-chain-depth3")
+            continue
+        if path not in live:
+            continue
+        others = [p for p in live if p != path]
+        ext = [p for p in others if p[:len(path)] == path]
+        if ext:
+            tags.add("trie-delete-inner-rule")
+            if len({p[len(path)] for p in ext}) == 1:
+                tags.add("trie-inner-rule-absorbs-only-child")
+        else:
+            # compressed parent: the longest proper prefix of path that is a rule end or a branching point among the others
+            best, best_rule, nchild = None, False, 0
+            for ln in range(len(path) - 1, 0, -1):
+                pre = path[:ln]
+                nxt = {p[ln] for p in live if len(p) > ln and p[:ln] == pre}
+                is_rule = pre in live
+                if is_rule or len(nxt) >= 2:
+                    best, best_rule, nchild = pre, is_rule, len(nxt)
+                    break
+            if best is not None:
+                if best_rule and nchild == 2:
+                    tags.add("trie-parent-rule-two-children-delete-leaf")
+                elif best_rule and nchild == 1:
+                    tags.add("trie-parent-rule-one-child-delete-leaf")
+                elif not best_rule and nchild == 2:
+                    tags.add("trie-absorb-last-child")
+                elif nchild >= 3:
+                    tags.add("trie-delete-leaf-of-wide-node")
+        del live[path]
+        deleted.add(path)
+    for q in reqs:
+        qpath = (-3,) + tuple(tab.ci(c) for c in q[0]) + (-3,) + tuple(tab.ci(c) for c in q[1]) + (-3,) + tuple(tab.bin(c) for c in q[2]) \
+            + (-3,) + tuple(tab.ci(c) for c in q[3])
+        if any(p[-len(q[3]):] == qpath[-len(q[3]):] for p in deleted if q[3]):
+            tags.add("trie-probe-deleted-rule")
+    return tags
+
+
 def classify(case, out):
     o = out.get("obs")
     if not o or out.get("err") or out.get("panic"):
@@ -582,6 +703,11 @@ def classify(case, out):
         if diffs:
             t.append("acc-differs-from-like")
         t.append("acc-rules-%d" % min(len(cur), 5))
+        t += sorted(_trie_tags(tab, eff_ops(case, o), case["reqs"]))
+        if case.get("fam"):
+            t.append("trie-family")
+            if case.get("sql"):
+                t.append("trie-family-sql")
     else:
         cur, diffs = _ns_diffs(case, o)
         tab = Tab(o["tab"])
@@ -671,8 +797,10 @@ def neighbours(case, rng):
             out.append(gen_m1(rng))
         else:
             out.append(gen_table(rng, k, False if k == "acc" else True))
+            if k == "acc":
+                out.append(gen_trie_family(rng, False))
     return out
 
 
 def search_cases(rng):
-    return [gen_m1(rng) for _ in range(200)] + [gen_table(rng, "acc", False) for _ in range(100)]
+    return [gen_m1(rng) for _ in range(200)] + [gen_table(rng, "acc", False) for _ in range(100)] + [gen_trie_family(rng, False) for _ in range(150)]
